@@ -54,7 +54,7 @@ def main():
         meta["detected_by"] = [c for c, r in results.items() if r["exit"] == 1]
         meta["confirmed"] = confirmed
         if confirmed:
-            tag = "%s-%s-%s" % (prop, os.path.basename(os.path.dirname(os.path.abspath(outdir))), n)
+            tag = "%s-%s-%s%s" % (prop, os.path.basename(os.path.dirname(os.path.abspath(outdir))), os.environ.get("SEED_ROUND", ""), n)
             dst = os.path.join("/verif/seeded", tag)
             os.makedirs(dst, exist_ok=True)
             shutil.copy(diff, os.path.join(dst, "patch.diff")); shutil.copy(demo, os.path.join(dst, "demo.py"))
